@@ -287,8 +287,9 @@ def rule_e(ctx):
             if fr:
                 continue
             ok = any(x.id in dom.get(n.id, ()) for x in fresh_nodes)
-            ctx.ob(R, f.qname, f"linear_solve(reuse_solver={norm(r)}) is dominated by a call that sets a fresh solver up", ok, "", c)
-        ctx.ob(R, f.qname, "at least one linear_solve call per solve sets a fresh solver up", bool(fresh_nodes), "", f.node)
+            ctx.ob(R, f.qname, f"linear_solve(reuse_solver={norm(r)}) is dominated by a call that sets a fresh solver up", ok,
+                   "a path reaches this call without passing a linear_solve that sets a solver up: it reuses whatever factorisation the object still holds from an earlier call", c, evidence=True)
+        ctx.ob(R, f.qname, "at least one linear_solve call per solve sets a fresh solver up", bool(fresh_nodes), "no linear_solve call of this solve sets a fresh solver up", f.node, evidence=True)
         # options never written
         writes = []
         for kk in m.mro(k):
